@@ -36,8 +36,13 @@ func vNewBackend(s *zzmodel.Store, base uint64, cache int) *backend {
 // wrapped from the start (replacing b.tso after NewBackend has started its goroutines would be a
 // data race in native replays).
 func vNewBackendTSO(s *zzmodel.Store, base uint64, cache int, wrap func(tso.TSO) tso.TSO) *backend {
+	return vNewBackendFull(s, base, cache, wrap, zzmodel.NoMetrics{})
+}
+
+// vNewBackendFull additionally takes the metrics client (e.g. zzmodel.YieldMetrics, whose
+// emissions are scheduling points).
+func vNewBackendFull(s *zzmodel.Store, base uint64, cache int, wrap func(tso.TSO) tso.TSO, metricCli metrics.Metrics) *backend {
 	config := Config{Prefix: vPrefix, EnableEtcdCompatibility: true, WatchCacheSize: cache}
-	var metricCli metrics.Metrics = zzmodel.NoMetrics{}
 	var kv storage.KvStorage = s
 	config.complete()
 	normalCoder := coder.NewNormalCoder()
